@@ -328,7 +328,7 @@ func main() {
 	for _, cs := range sweep(c) {
 		run(c, cs)
 	}
-	n := c.Scale(150, 4000)
+	n := c.Scale(100, 4000)
 	rng := c.Rng.Fork("random histories")
 	for i := 0; i < n; i++ {
 		run(c, randomHistory(rng, i))
